@@ -272,7 +272,7 @@ fn done(r: Option<Rep>) -> Result<(), String> {
 
 pub fn run(rc: &mut RunCtx) {
     let seed = rc.seed;
-    let n = rc.n(300, 8000);
+    let n = rc.n(800, 10000);
     for i in 0..n {
         let id = format!("close:{}", i);
         if !rc.mine(&id) {
